@@ -755,11 +755,61 @@ def op_attr(step, ctx):
     return out
 
 
+def op_script(step, ctx):
+    """Run a function of the repository's own fixture builders / examples under the recorder."""
+    import importlib
+    from recorder import Recorder
+    helpers = {'num_abs': num_abs, 'dt_utc_fields': dt_utc_fields, 'be_bytes': be_bytes, 'hc_flag': hc_flag, 'Tap': Tap,
+               'small_int': small_int, 'exc_text': exc_text, 'hooks': _hooks}
+    rec = Recorder(ctx['dir'], helpers)
+    for extra in step.get('syspath', []):
+        if extra not in sys.path:
+            sys.path.insert(0, extra)
+    for name in step.get('stub_modules', []):
+        import types
+        sys.modules.setdefault(name, types.ModuleType(name))
+    args = []
+    for a in step.get('args', []):
+        if isinstance(a, dict) and a.get('t') == 'path':
+            args.append(os.path.join(ctx['dir'], a['v']))
+        elif isinstance(a, dict) and a.get('t') == 'arrays':
+            args.append({k: get_array(aid, ctx) for k, aid in a['v'].items()})
+        elif isinstance(a, dict) and a.get('t') == 'kwargs':
+            args.append({k: {kk: to_py(vv, ctx) for kk, vv in v.items()} for k, v in a['v'].items()})
+        else:
+            args.append(a)
+    ev = {'op': 'script', 'module': step.get('module', step.get('run_path', '')), 'func': step.get('func', '')}
+    with rec:
+        try:
+            if step.get('run_path'):
+                import runpy
+                import types
+                cl = types.ModuleType('coloredlogs')
+                cl.install = lambda *a, **k: None
+                sys.modules.setdefault('coloredlogs', cl)
+                cwd = os.getcwd()
+                os.chdir(ctx['dir'])
+                try:
+                    runpy.run_path(step['run_path'], run_name='__main__')
+                finally:
+                    os.chdir(cwd)
+                    logging.disable(logging.CRITICAL)
+            else:
+                mod = importlib.import_module(step['module'])
+                getattr(mod, step['func'])(*args)
+            ev['outcome'] = 'ok'
+        except Exception as e:  # noqa
+            ev['outcome'] = 'raised'
+            ev['exc'] = exc_text(e)
+    ev['hc'] = hc_flag()
+    return rec.events + [ev]
+
+
 def op_mark(step, ctx):
     return [{'op': 'mark', 'what': step.get('what', ''), 'outcome': 'ok', 'hc': hc_flag()}]
 
 
-OPS = {'mark': op_mark, 'attr': op_attr, 'lowwrite': op_lowwrite, 'new_file': op_new_file, 'add_lf': op_add_lf, 'add': op_add, 'set': op_set,
+OPS = {'mark': op_mark, 'script': op_script, 'attr': op_attr, 'lowwrite': op_lowwrite, 'new_file': op_new_file, 'add_lf': op_add_lf, 'add': op_add, 'set': op_set,
        'nofmt_data': op_nofmt_data, 'hc_enter': op_hc, 'hc_exit': op_hc, 'hc_exit_exc': op_hc,
        'hc_decorated': op_hc_decorated, 'write': op_write, 'encode': op_encode}
 
